@@ -115,7 +115,7 @@ func runC10(c *Ctx) {
 	}
 	// hand-made collections: criteria that are FHIR boolean ELEMENTS (true / false / absent), names whose
 	// later item has a multi-item `given`, extension URLs that are slash / prefix / case variants
-	hand := mustResource(`{"resourceType":"Patient","id":"h","active":false,"communication":[{"language":{"text":"a"},"preferred":false},{"language":{"text":"b"},"preferred":true},{"language":{"text":"c"}},{"language":{"text":"d"},"preferred":false}],
+	hand := mustResource(`{"resourceType":"Patient","id":"h","active":false,"_active":{"extension":[{"url":"http://example.org/fhir/ext/a","valueString":"on-active"}]},"birthDate":"1980-02-29","_birthDate":{"extension":[{"url":"http://example.org/fhir/ext/a","valueDateTime":"1980-02-29T10:00:00Z"},{"url":"http://example.org/fhir/ext","valueString":"x"}]},"deceasedDateTime":"2020-01-01T10:00:00Z","_deceasedDateTime":{"extension":[{"url":"http://example.org/fhir/ext/a/","valueString":"y"}]},"meta":{"lastUpdated":"2020-01-01T10:00:00.000Z","_lastUpdated":{"extension":[{"url":"http://example.org/fhir/ext/a","valueString":"z"}]}},"communication":[{"language":{"text":"a"},"preferred":false},{"language":{"text":"b"},"preferred":true},{"language":{"text":"c"}},{"language":{"text":"d"},"preferred":false}],
 	  "name":[{"given":["Ann"],"family":"A"},{"given":["Bea","Bo"],"family":"B"},{"family":"C"}],
 	  "extension":[{"url":"http://example.org/fhir/ext/a","valueString":"1"},{"url":"http://example.org/fhir/ext/a/","valueString":"2"},{"url":"http://example.org/fhir/ext/a/b","valueString":"3"},{"url":"HTTP://example.org/fhir/ext/a","valueString":"4"},{"url":"http://example.org/fhir/ext/a","valueString":"5"}]}`)
 	for _, p := range []string{"Patient.communication", "Patient.name", "Patient.extension", "Patient.communication.preferred", "Patient"} {
@@ -146,6 +146,10 @@ func runC10(c *Ctx) {
 		{hn("A"), hn("A"), hn("B"), hn("A")},
 		{},
 		{system.Integer(7)},
+		// items whose comparison has no answer (different precisions, different units) are not equal: they stay apart
+		{c10Date("2020"), c10Date("2020-01"), c10Date("2020"), c10Date("2020-01-15"), c10Date("2020-01")},
+		{c10Qty("5", "mg"), c10Qty("7", "kg"), c10Qty("5", "mg"), c10Qty("5", "kg"), c10Qty("5.0", "mg")},
+		{c10DT("2020-01-01T10"), c10DT("2020-01-01T10:00"), c10DT("2020-01-01T10"), c10DT("2020-01-01T10:00:00Z")},
 		// the same value as a FHIR element first and as a System value later, and the other way round
 		{fhir.String("a"), system.String("a"), &dtpb.Code{Value: "a"}, system.String("b"), &dtpb.Uri{Value: "b"}, system.String("a")},
 		{fhir.Integer(1), system.Integer(1), fhir.Boolean(true), system.Boolean(true), mustElementDecimal("1.0"), system.Decimal(mustDec("1.0"))},
@@ -522,12 +526,15 @@ func runC10(c *Ctx) {
 			continue
 		}
 		for _, u := range urls {
-			for _, base := range []string{"", ".name", ".identifier", ".descendants()"} {
+			for _, base := range []string{"", ".name", ".identifier", ".descendants()", ".birthDate", ".deceased", ".active", ".name.family", ".name.given", ".telecom.value", ".meta.lastUpdated", ".effective", ".issued",
+				".period.start", ".period.end", ".status", ".gender", ".id", ".value", ".identifier.value", ".extension.value"} {
 				rt := string(res.ProtoReflect().Descriptor().Name())
 				l := compileEval(rt+base+".extension('"+u+"')", []fhir.Resource{res})
 				r := compileEval(rt+base+".extension.where(url = '"+u+"')", []fhir.Resource{res})
 				if r.Err != nil || r.Panicked {
 					// right-hand side undefined (non-extendable items): the left-hand side must then be empty or an error
+					// (over descendants() the right-hand side legitimately fails on the narrative's xhtml, which has no extensions)
+					c.Law(base == ".descendants()" || l.Err != nil || len(l.Coll) == 0, "C10/extension-where", "extension(u) = extension.where(url = u)", rt+base+" "+u, fmt.Sprintf("extension(u) finds %d items while .extension fails: %v", len(l.Coll), r.Err))
 					continue
 				}
 				ok := l.Err == nil && len(l.Coll) == len(r.Coll)
@@ -610,4 +617,28 @@ func evalOnN(src string, cl struct {
 		}
 		return e.Evaluate(cl.input, evalopts.EnvVariable("c", cl.items), evalopts.EnvVariable("n", system.Integer(int32(n))))
 	})
+}
+
+func c10Date(t string) system.Any {
+	d, err := system.ParseDate(t)
+	if err != nil {
+		panic(err)
+	}
+	return d
+}
+
+func c10DT(t string) system.Any {
+	d, err := system.ParseDateTime(t)
+	if err != nil {
+		panic(err)
+	}
+	return d
+}
+
+func c10Qty(v, u string) system.Any {
+	q, err := system.ParseQuantity(v, u)
+	if err != nil {
+		panic(err)
+	}
+	return q
 }
